@@ -42,6 +42,8 @@ def gen(seed, i, tier):
         a1 = round(r.loguniform(2e-4, 2e-3), 7)
         o["BunchCurrent"] = [a1, round(a1 * r.choice([0.5, 1.0, 3.0]), 7)] if r.chance(0.6) else [a1, 0.0, round(a1 * r.choice([0.5, 2.0]), 7)]
         o["GridSize"] = min(o["GridSize"], 96)
+    if i % 8 in (1, 5):
+        o["SynchrotronFrequency"] = float(r.choice([8000, 15000, 30000]))      # the focusing given through f_s (alone, and together with the sinusoidal model)
     if i % 8 in (2, 5):
         o["LinearRF"] = False                    # sinusoidal RF (k_RF*sigma of a few 1e-3: the same well to that accuracy), every other train and some single bunches
     prog.sprinkle(core.Rng("c04nuisance", seed, i), o)          # options that must not matter to the widths
